@@ -57,7 +57,7 @@ package rosmar
 // collection.go: reads
 
 //@ fn (*Collection).getRaw
-//@   modular
+//@   modular in=Update,subdocWrite
 //@   variant tx q=tx
 //@   variant pool q=pool
 //@   let r = old(doc(c.id, key))
@@ -150,7 +150,7 @@ package rosmar
 //@ spec wcJSON(opt, raw) = if isnull(raw) then 0 else (if !bit(opt, 1) && !bit(opt, 16) then 1 else 0)
 //@
 //@ fn (*Collection).WriteCas
-//@   modular
+//@   modular in=Update,subdocWrite
 //@   flag modifies=db
 //@   variant bytes val=bytes
 //@   variant nil val=nil
@@ -309,6 +309,7 @@ package rosmar
 //@   ensures [C01:Set.err-unchanged] err != nil ==> db == old(db)
 //@
 //@ fn (*Collection).Get
+//@   requires DocInv(doc(c.id, key))
 //@   modular
 //@   ensures [C01,C11:Get.frame] db == old(db)
 //@
@@ -526,7 +527,7 @@ package rosmar
 //@   ensures [C08:wwx.event]              err == nil ==> lenlist(posted) == 1 && posted[0] == eventOf(key, r2) && postsAfterCommit()
 //@   ensures [C02:wwx.cas-necessary]      err == nil && ifCas != nil ==> *ifCas == cur
 //@   ensures [C02:wwx.cas-rejected]       ifCas != nil && *ifCas != cur ==> err != nil && db == old(db)
-//@   ensures [C02:wwx.cas-actual]         iscasmismatch(err) ==> err.Expected == *ifCas && err.Actual == cur
+//@   ensures [C02:wwx.cas-actual]         iscasmismatch(err) && count("call:event.expandXattrMacros") == 0 ==> err.Expected == *ifCas && err.Actual == cur
 //@   ensures [C06:wwx.insert-only-absent] err == nil && ifCas != nil && *ifCas == 0 ==> !r.present
 //@   ensures [C06:wwx.insertdoc-iff-nobody] opts.insertDoc && err == nil ==> !hasBody(r)
 //@   ensures [C06:wwx.insertdoc-refused]  opts.insertDoc && hasBody(r) ==> err != nil && db == old(db)
